@@ -951,3 +951,120 @@ pub mod verif_hooks_c10;
 #[cfg(feature = "verif-hooks")]
 #[path = "verif_hooks_c01.rs"]
 pub mod verif_hooks_c01;
+
+//------------ Verification hooks (off by default) ---------------------------
+
+/// Add-only access for the external verification harness (feature
+/// `verif-hooks`): runs the real `Processor::process` with a scripted
+/// session (the routecore FSM is replaced by messages the harness sends), a
+/// real gate, register and `live_sessions` map.
+#[cfg(feature = "verif-hooks")]
+pub mod verif_hooks {
+    use super::*;
+    use crate::comms::{GateAgent, Link};
+    use std::sync::atomic::{AtomicBool, Ordering::SeqCst};
+
+    pub use routecore::bgp::fsm::session::{
+        Message as SessionMessage, NegotiatedConfig as Negotiated,
+    };
+
+    struct ScriptedSession {
+        cfg: CombinedConfig,
+        neg: NegotiatedConfig,
+        negotiated: Arc<AtomicBool>,
+    }
+
+    #[async_trait::async_trait]
+    impl BgpSession<CombinedConfig> for ScriptedSession {
+        fn config(&self) -> &CombinedConfig {
+            &self.cfg
+        }
+        fn connected_addr(&self) -> Option<SocketAddr> {
+            Some("1.2.3.4:12345".parse().unwrap())
+        }
+        fn negotiated(&self) -> Option<&NegotiatedConfig> {
+            if self.negotiated.load(SeqCst) {
+                Some(&self.neg)
+            } else {
+                None
+            }
+        }
+        async fn tick(&mut self) -> Result<(), session::Error> {
+            tokio::time::sleep(std::time::Duration::from_millis(20)).await;
+            Ok(())
+        }
+    }
+
+    pub struct BgpHarness {
+        pub agent: GateAgent,
+        pub link: Link,
+        /// `session.negotiated()` answers `Some` once this is set
+        pub negotiated: Arc<AtomicBool>,
+        pub sess_tx: Option<mpsc::Sender<Message>>,
+        pub live_sessions: Arc<Mutex<super::super::unit::LiveSessions>>,
+        pub ingress_id: ingress::IngressId,
+        pub task: tokio::task::JoinHandle<()>,
+        _cmd_rx: mpsc::Receiver<Command>,
+        _pdu_rx: mpsc::Receiver<BgpMsg<Bytes>>,
+    }
+
+    /// Must be called inside a tokio runtime.
+    pub fn start() -> BgpHarness {
+        let (gate, mut agent) = Gate::new(0);
+        let link = agent.create_link();
+        let unit_cfg = BgpTcpIn {
+            listen: "verif".to_string(),
+            my_asn: Asn::from_u32(64999),
+            my_bgp_id: Default::default(),
+            peer_configs: Default::default(),
+            filter_name: Default::default(),
+        };
+        let peer_config: super::super::peer_config::PeerConfig =
+            toml::from_str("name = \"verif\"\nremote_asn = []").unwrap();
+        let cfg = CombinedConfig::new(
+            unit_cfg.clone(),
+            peer_config,
+            super::super::peer_config::PrefixOrExact::Exact(
+                "1.2.3.4".parse().unwrap(),
+            ),
+        );
+        let (cmd_tx, cmd_rx) = mpsc::channel(64);
+        let (pdu_tx, pdu_rx) = mpsc::channel(64);
+        let ingresses = Arc::new(ingress::Register::new());
+        let _unit_id = ingresses.register();
+        let ingress_id = ingresses.register();
+        let mut processor = Processor::new(
+            None,
+            gate,
+            unit_cfg,
+            cmd_tx,
+            pdu_tx,
+            Default::default(),
+            ingresses,
+            ingress_id,
+        );
+        let negotiated = Arc::new(AtomicBool::new(false));
+        let session = ScriptedSession {
+            cfg,
+            neg: NegotiatedConfig::dummy(),
+            negotiated: negotiated.clone(),
+        };
+        let (sess_tx, sess_rx) = mpsc::channel::<Message>(100);
+        let live_sessions = Arc::new(Mutex::new(Default::default()));
+        let ls = live_sessions.clone();
+        let task = crate::tokio::spawn("verif-bgp-processor", async move {
+            let _ = processor.process(session, sess_rx, ls).await;
+        });
+        BgpHarness {
+            agent,
+            link,
+            negotiated,
+            sess_tx: Some(sess_tx),
+            live_sessions,
+            ingress_id,
+            task,
+            _cmd_rx: cmd_rx,
+            _pdu_rx: pdu_rx,
+        }
+    }
+}
